@@ -191,6 +191,7 @@ fn dump_with(a: &EmmyLuaAnalysis, requires: &[String], probe: Option<(&str, &[St
         g.insert("refs".into(), json!(refs));
         let owner = LuaMemberOwner::GlobalPath(emmylua_code_analysis::GlobalId::new(name));
         g.insert("members".into(), members(a, &owner));
+        g.insert("member_ids".into(), member_ids(a, &owner));
         globals.insert(name.clone(), Value::Object(g));
     }
     // types
@@ -215,6 +216,7 @@ fn dump_with(a: &EmmyLuaAnalysis, requires: &[String], probe: Option<(&str, &[St
             t.insert("alias".into(), json!(decl.get_alias_ref().map(|x| ty(a, x))));
         }
         t.insert("members".into(), members(a, &LuaMemberOwner::Type(id.clone())));
+        t.insert("member_ids".into(), member_ids(a, &LuaMemberOwner::Type(id.clone())));
         // member lookup on an instance of the type (own + inherited through the super edges): [key, type, declaring file]
         t.insert("inherit".into(), inherit(a, &id));
         // generic header: parameter names with constraint / default, and the rendered head of the type
@@ -389,6 +391,30 @@ fn members(a: &EmmyLuaAnalysis, owner: &LuaMemberOwner) -> Value {
     json!(out)
 }
 
+/// The RAW id list the owner keeps per key (second seeded round, C08/C10): one entry per stored member id, in
+/// index order, labelled with the file of the id - an id of a file that is gone shows as `?dead:` / `?id`, an id
+/// stored twice shows twice (`members` above lists what the ids resolve to, so a dangling id is invisible there).
+fn member_ids(a: &EmmyLuaAnalysis, owner: &LuaMemberOwner) -> Value {
+    let db = a.compilation.get_db();
+    let mut keys = Vec::new();
+    if let Some(ms) = db.get_member_index().get_members(owner) {
+        for m in ms {
+            if !keys.contains(m.get_key()) {
+                keys.push(m.get_key().clone());
+            }
+        }
+    }
+    let mut out = Vec::new();
+    for k in keys {
+        if let Some(item) = db.get_member_index().get_member_item(owner, &k) {
+            let ids: Vec<String> = item.get_member_ids().iter().map(|id| label(a, id.file_id)).collect();
+            out.push(json!([k.to_path(), ids]));
+        }
+    }
+    out.sort_by_key(|v| v.to_string());
+    json!(out)
+}
+
 /// structural diff of two dumps: list of [json-path, left, right] (at most `cap` entries)
 fn diff(path: &str, l: &Value, r: &Value, out: &mut Vec<Value>, cap: usize) {
     if out.len() >= cap || l == r {
@@ -533,6 +559,41 @@ fn model_diff(model: &Value, d: &Value, out: &mut Vec<Value>) {
             w.sort();
             if got != w {
                 out.push(json!([format!("members/{cls}"), w, got]));
+            }
+            // the raw id lists must hold exactly the same (key, file) pairs, each once
+            let mut raw: Vec<(String, String)> = Vec::new();
+            for e in d["types"].get(cls).and_then(|t| t["member_ids"].as_array()).into_iter().flatten() {
+                for f in e[1].as_array().into_iter().flatten() {
+                    raw.push((e[0].as_str().unwrap_or("").to_string(), f.as_str().unwrap_or("").to_string()));
+                }
+            }
+            raw.sort();
+            if raw != w {
+                out.push(json!([format!("member_ids/{cls}"), w, raw]));
+            }
+        }
+    }
+    if let Some(m) = model.get("gtype").and_then(|x| x.as_object()) {
+        // inferred type of every declaration of the global: (file, type)
+        for (g, want) in m {
+            let mut got: Vec<(String, String)> = d["globals"].get(g).and_then(|t| t["decls"].as_array()).map(|v| v.iter().map(|s| (strip(s[0].as_str().unwrap_or("")), s[1].as_str().unwrap_or("").to_string())).collect()).unwrap_or_default();
+            got.sort();
+            let mut w: Vec<(String, String)> = want.as_array().map(|v| v.iter().map(|s| (s[0].as_str().unwrap_or("").to_string(), s[1].as_str().unwrap_or("").to_string())).collect()).unwrap_or_default();
+            w.sort();
+            if got != w {
+                out.push(json!([format!("gtype/{g}"), w, got]));
+            }
+        }
+    }
+    if let Some(m) = model.get("gmembers").and_then(|x| x.as_object()) {
+        // members listed by the owner GlobalPath(g): (key, file) per stored id, with multiplicity
+        for (g, want) in m {
+            let mut got: Vec<(String, String)> = d["globals"].get(g).and_then(|t| t["members"].as_array()).map(|v| v.iter().map(|s| (s[0].as_str().unwrap_or("").to_string(), strip(s[1].as_str().unwrap_or("")))).collect()).unwrap_or_default();
+            got.sort();
+            let mut w: Vec<(String, String)> = want.as_array().map(|v| v.iter().map(|s| (s[0].as_str().unwrap_or("").to_string(), s[1].as_str().unwrap_or("").to_string())).collect()).unwrap_or_default();
+            w.sort();
+            if got != w {
+                out.push(json!([format!("gmembers/{g}"), w, got]));
             }
         }
     }
